@@ -390,6 +390,9 @@ def stepFe (st : St) (ws : List String) : St × String :=
           | some vs => ({ st with fe := Map.upsert st.fe h (e.fromValues vs) }, "ok")
           | none => bad st
         | "marshal", [] => (st, hex e.marshal)
+        | "write", [k] => match k.toNat? with
+          | some k => let (cs, err) := e.writeTo k; (st, s!"{hex cs.flatten} {showB err}")
+          | none => bad st
         | "msize", [] => (st, s!"{e.marshalSize}")
         | "size", [] => (st, s!"{e.values.length}")
         | _, _ => bad st
